@@ -27,8 +27,10 @@ LEVEL_TEXT = ("Proof over the reals: delta1 = 1 - sum_{j<n} pmf(j) = sum_{j>=n} 
               "count n), in particular in the mean along a fixed or non-decreasing dispersion var/mean; with the VARIANCE fixed "
               "the clause is false of the law (kernel-checked witness: mean 2 -> 3 at variance 4, n = 10); for every epsilon with "
               "2^-k <= eps <= 1 - 2^-k and (n+1) 2^k <= 2^53 the float64 values n -/+ eps floor to n - 1 and n; a history of "
-              "scale / scale_to_test_date calls is the history of the factors that took effect; the float64 value of "
-              "1.0 - ((var - mean)/var) lies in [0,1] and IS 0 at var = 1e17 x mean (candidate finding); 1.0 - cdf is a "
+              "scale / scale_to_test_date calls is the history of the factors that took effect; the float64 value of the "
+              "code's probability parameter mean / var (fix D47) lies in [0,1], is within 2^-53 relative of the quotient and is "
+              "never 0 while mean/var >= 2^-1022; the formula before the fix, 1.0 - ((var - mean)/var), IS 0 at var = 1e17 x "
+              "mean and is off by 8e-8 relative at var = 1e10 x mean (kernel-checked findings about the old code); 1.0 - cdf is a "
               "double in [0,1] for every cdf value in [0,1]; the catalog N-test counts the catalogs DELIVERED by the pass, "
               "whatever number (n_cat) the forecast announced, and the pass corrects the announcement. Tied to the code by a numerical correspondence of "
               "the Float instance with the implementation and a scipy oracle on every run.")
@@ -37,8 +39,9 @@ LEVEL_NOTE = ("Theorems are over the reals; scipy's poisson.cdf / nbinom.cdf are
               "accumulates rounding). "
               "Monotonicity in the mean is proved for the Poisson law and, since round 4, for the NBD law along non-decreasing "
               "dispersion var/mean (with non-decreasing shape); for the NBD law with a FIXED variance it is false of the law "
-              "(proved witness). AWAITING_DECISION: the code's probability parameter 1.0 - ((var - mean)/var) cancels (nan for "
-              "var >= ~9e15 x mean); the generators keep var <= 1e4 x mean (NBD_DISPERSION_CAP) until that is decided.")
+              "(proved witness). The NBD tails are judged against the law evaluated in 60-digit decimal arithmetic (exact "
+              "rational parameters; scipy only for n > 20000), 1e-9 relative / 1e-12 absolute, over every dispersion var/mean up to "
+              "1e17; on the near-Poisson side (p -> 1) the tolerance follows the conditioning of scipy's (r, p) parameterisation.")
 DESIGN_REF = "DESIGN.md §4 C07"
 TECHNIQUE = "Lean 4 theorems over Mathlib reals (generic RealOps model) + Float-instance correspondence + scipy oracle"
 
@@ -69,7 +72,8 @@ THEOREMS = ["NumberTest.floor_shift", "NumberTest.cdf_shift", "NumberTest.pmf_cl
             "NumberTest.float_floor_shift_eps", "NumberTest.shiftF_eq_shiftFE", "NumberTest.nbd_delta_mono_params",
             "NumberTest.nbd_delta_mono_mean_dispersion", "NumberTest.nbd_delta_mono_mean_fixed_dispersion",
             "NumberTest.public_nbd_scale_mono_fixed_dispersion", "NumberTest.nbd_fixed_variance_not_monotone",
-            "NumberTest.upsilon_float_range", "NumberTest.finding_nbd_upsilon_zero",
+            "NumberTest.upsilon_float_range", "NumberTest.upsilon_float_rel_err", "NumberTest.upsilon_float_pos",
+            "NumberTest.upsilon_old_float_range", "NumberTest.nbd_params_old_eq", "NumberTest.finding_nbd_upsilon_zero",
             "NumberTest.finding_nbd_upsilon_inexact", "NumberTest.history_eq_effective",
             "NumberTest.public_number_test_after_history", "NumberTest.cfa_ntest_announced_irrelevant",
             "NumberTest.cfa_pass_corrects_announced", "NumberTest.delta1_float_range"]
@@ -79,13 +83,14 @@ TRUSTED = ["Lean 4.33 kernel", "axioms: propext, Classical.choice, Quot.sound at
            "rounding of exp/log/cdf in float64 is outside every theorem (Float instance vs real instance)",
            "numpy.sum of the forecast rates is the forecast total (compared with math.fsum to 1e-12 relative, and with the "
            "model's own sequential sum of stored rate x factor in the public-history cases)",
-           "Soft64 = IEEE binary64 for n -/+ eps and for 1.0 - ((var - mean)/var) (compared with numpy / IEEE arithmetic on "
+           "Soft64 = IEEE binary64 for n -/+ eps, mean / var and 1.0 - ((var - mean)/var) (compared with numpy / IEEE arithmetic on "
            "every run, also beyond the proved ranges)",
            "the fraction scale_to_test_date sets (decimal years) is booked by the harness's own arithmetic (C11 / C15's subject)",
            "C09 (get_quantiles) for the catalog N-test",
            "harness/c07.py generators and comparison; driver parsing (Proto.lean)"]
 RULE = ("mu in 10^U(-6,5) plus decimal/integer boundary means; n in {0,1,2, floor(mu)+-3, mu+-c*sqrt(mu), U(0,2000), U(0,1e5), "
-        "1e5}; NBD variance in (mu, 1e4*mu]; array-level helpers and the public functions on generated GriddedForecast "
+        "1e5}; NBD variance in (mu, 1e17*mu] (near-Poisson from mu(1+1e-6), wide up to dispersion 1e17; the witnesses of "
+        "finding D47 run first); array-level helpers and the public functions on generated GriddedForecast "
         "(optionally scaled) / CSEPCatalog / CatalogForecast objects; observed (and synthetic) catalogs that are NOT cut "
         "to the forecast: events below the lowest magnitude edge (also 1 ulp below it), far above the top edge, outside "
         "the spatial region - n_obs is the number of events of the catalog for all three tests, which must agree on it; "
@@ -267,26 +272,55 @@ def _pois_case(run, drv, pending, rng, mu, n, tag, np_types=False, eps=None):
 
 
 # ----------------------------------------------------------------------------- NBD, array level
+EXACT_ORACLE_MAX_N = 20000
+
+
+def _nbd_exact(mu, var, n):
+    """(P(N >= n), P(N <= n), P(N = n)) of the negative-binomial law with mean `mu` and variance `var` (the doubles taken as
+    exact rationals), r = mu^2/(var - mu), p = mu/var, in 60-digit decimal arithmetic: pmf(0) = exp(r ln p),
+    pmf(k+1) = pmf(k) (r+k)(1-p)/(k+1) - no scipy, no float rounding (rounded once at the end)"""
+    from decimal import Decimal, localcontext
+    with localcontext() as ctx:
+        ctx.prec = 60
+        m, v = Decimal(mu), Decimal(var)
+        p = m / v
+        r = m * m / (v - m)
+        q = 1 - p
+        t = (r * p.ln()).exp()
+        lo = Decimal(0)
+        below = Decimal(0)
+        for k in range(n + 1):
+            if k == n:
+                below = lo
+            lo += t
+            if k < n:
+                t = t * (r + k) * q / (k + 1)
+        return float(1 - below), float(lo), float(t)
+
+
 def _nbd_oracle(run, case, mu, var, n, d1, d2):
     import scipy.stats
-    # beyond the generator cap only when NBD_WIDE_DISPERSION is set: failures there carry the finding's signature
-    sig = "nbd:upsilon-cancellation" if var > NBD_DISPERSION_CAP * mu * (1 + 1e-9) else None
-    fail = (lambda c, d: run.oracle_failure(c, d, signature=sig))
     p = float(Fraction(mu) / Fraction(var))
     r = float(Fraction(mu) ** 2 / (Fraction(var) - Fraction(mu)))
-    sf = float(scipy.stats.nbinom.sf(n - 1, r, p))
-    cdf = float(scipy.stats.nbinom.cdf(n, r, p))
-    pmf = float(scipy.stats.nbinom.pmf(n, r, p))
-    # the float parameters of the code carry a relative error ~1e-16/(1-mu/var); tails move by about that times r
+    if n <= EXACT_ORACLE_MAX_N:
+        sf, cdf, pmf = _nbd_exact(mu, var, n)
+        run.count("nbd:oracle=exact-decimal")
+    else:
+        sf = float(scipy.stats.nbinom.sf(n - 1, r, p))
+        cdf = float(scipy.stats.nbinom.cdf(n, r, p))
+        pmf = float(scipy.stats.nbinom.pmf(n, r, p))
+        run.count("nbd:oracle=scipy-exact-parameters")
+    # near-Poisson side only: p -> 1 and scipy's (r, p) parameterisation loses 1 - p (relative error ~1e-16/(1 - mu/var),
+    # inherent to handing p to nbinom); tails move by about that times r. For var >= 2 mu this term is below 1e-15 r.
     slack = 1e-9 + 4e-16 * r * var / (var - mu)
     if not _close(d1, sf, slack, 1e-12 + slack * 1e-3):
-        fail(case, f"delta1={d1!r} but P(N>=n)={sf!r} (r={r!r}, p={p!r})")
+        run.oracle_failure(case, f"delta1={d1!r} but P(N>=n)={sf!r} (r={r!r}, p={p!r})")
     if not _close(d2, cdf, slack, 1e-300 + slack * 1e-3):
-        fail(case, f"delta2={d2!r} but P(N<=n)={cdf!r} (r={r!r}, p={p!r})")
+        run.oracle_failure(case, f"delta2={d2!r} but P(N<=n)={cdf!r} (r={r!r}, p={p!r})")
     if not abs(d1 + d2 - 1.0 - pmf) <= 1e-9 + slack:
-        fail(case, f"delta1+delta2-1={d1 + d2 - 1.0!r} but P(N=n)={pmf!r}")
+        run.oracle_failure(case, f"delta1+delta2-1={d1 + d2 - 1.0!r} but P(N=n)={pmf!r}")
     if not (0.0 <= d1 <= 1.0 and 0.0 <= d2 <= 1.0):
-        fail(case, f"delta out of [0,1]: {d1!r} {d2!r}")
+        run.oracle_failure(case, f"delta out of [0,1]: {d1!r} {d2!r}")
     return pmf
 
 
@@ -662,24 +696,13 @@ _OPS = {">=": numpy.greater_equal, "<": numpy.less, ">": numpy.greater, "<=": nu
 # input classes on which the unchanged code does not satisfy the property and which wait for a decision (kept out of the
 # generators): an ABORTED pass (next()/break) before the N-test makes the test count only the remaining catalogs - this
 # is the known finding D27 of C13 ("catalog-forecast:aborted-pass-not-restarted"), the same defect seen through C07
-AWAITING_DECISION = ["catalog-forecast: aborted pass (next()/break) before the catalog N-test (D27, known under C13)",
-                     # round 4 (found by widening the variance generator beyond 1e4 x mean; "all admissible NBD variances
-                     # (> mean)" has no upper bound): binomial_evaluations.py:24 forms p as 1.0 - ((var - mean) / var).
-                     # (a) var >= ~9e15 x mean: the quotient rounds to 1.0, p = 0.0, scipy answers nan for both deltas
-                     #     (witness `_nbd_number_test_ndarray(1.0, 0, 1e17)` -> (nan, nan); the law has P(N>=0) = 1);
-                     # (b) below that p carries a relative error ~1.1e-16 x var/mean (8.3e-8 at var/mean = 1e10), e.g.
-                     #     `_nbd_number_test_ndarray(78159.23998281111, 1, 2.4404283166859148e+16)` -> delta1 =
-                     #     6.625184153e-06, the law has 6.625190878e-06 (80-digit arithmetic): 1.0e-6 relative, 6.7e-12
-                     #     absolute, outside the 1e-9 / 1e-12 band every other NBD case is held to.
-                     # Proposed patch: `upsilon = mean / var` (the same number, one rounding). Lean: finding_nbd_upsilon_zero,
-                     # finding_nbd_upsilon_inexact. Until decided the generators keep var <= NBD_DISPERSION_CAP x mean.
-                     "nbd: upsilon = 1.0 - ((var - mean) / var) cancels: nan for var >= ~9e15*mean, relative error "
-                     "1.1e-16*var/mean in p below that (signature nbd:upsilon-cancellation)"]
-NBD_DISPERSION_CAP = 1e4
-# set True once the finding above is decided (repaired in /repo, or entered in known_findings.json with the signature
-# "nbd:upsilon-cancellation"): the wide-dispersion class var/mean in (1e4, 1e17] is then generated and judged by the
-# same oracle as every other NBD case
-NBD_WIDE_DISPERSION = False
+AWAITING_DECISION = ["catalog-forecast: aborted pass (next()/break) before the catalog N-test (D27, known under C13)"]
+# D47 (found in round 4 by widening the variance generator; repaired in /repo): binomial_evaluations.py:24 formed the NBD
+# probability as 1.0 - ((var - mean) / var): nan for var >= ~9e15 x mean, relative error 1.1e-16 x var/mean below that.
+# Since the fix (`upsilon = mean / var`) every dispersion up to 1e17 x mean is generated (`_gen_wide_var`) and judged by
+# the exact oracle; the two witnesses of the old code run first in the corpus (D47_WITNESSES): reverting the fix is reported.
+D47_WITNESSES = [(1.0, 1e17, 0), (1.0, 1e17, 3), (78159.23998281111, 2.4404283166859148e+16, 1), (1e-6, 23541.0, 0),
+                 (1e-6, 1e11, 1)]
 SEQ_CUTS = [4.0, 4.5, 4.25, 3.7]
 
 
@@ -1415,45 +1438,61 @@ def _gen_wide_pair(rng):
     return mu, (var if var > mu else mu * 2.0)
 
 
+def _d47_public(run):
+    """the first witness through the PUBLIC function: forecast total 1, one observed event, variance 1e17"""
+    from csep.core import binomial_evaluations as be
+    from csep.core.forecasts import GriddedForecast
+    reg = _region(1, 1, 1)
+    case = dict(kind="public-d47", mu="1.0", var="1e+17", n=1, tag="corpus-D47")
+    try:
+        f = GriddedForecast(start_time=datetime.datetime(2020, 1, 1), end_time=datetime.datetime(2021, 1, 1),
+                            data=numpy.array([[1.0]]), region=reg[0], magnitudes=reg[1], name="one-bin")
+        with numpy.errstate(all="ignore"):
+            res = be.negative_binomial_number_test(f, _catalog(1, reg, 4242), 1e17)
+        d1, d2 = float(res.quantile[0]), float(res.quantile[1])
+    except Exception as e:
+        run.oracle_failure(case, f"exception {type(e).__name__}: {e}")
+        return
+    _nbd_oracle(run, case, 1.0, 1e17, 1, d1, d2)
+    run.case(case, ("public-d47",))
+
+
+def _gen_wide_var(rng, mu):
+    """a variance with dispersion var/mean in (1e4, 1e17]"""
+    k = rng.random()
+    if k < 0.6:
+        return mu * 10 ** rng.uniform(4, 17)
+    if k < 0.8:
+        return mu * 2.0 ** rng.randint(14, 56)
+    c = [v for v in (23541.0, 1e10, 1e17, 2.0 ** 53, 1e12) if 1e4 * mu < v <= 1e17 * mu]
+    return rng.choice(c) if c else mu * 1e17
+
+
 def _ups_cases(run, drv, pending, rng, count):
-    """the three float64 operations of `upsilon = 1.0 - ((var - mean) / var)` (binomial_evaluations.py:24): Soft64
-    `upsilonF` bit-for-bit against the same expression in IEEE arithmetic, over every dispersion (also where the code's
-    formula is the subject of the finding above); theorem upsilon_float_range: the value lies in [0, 1]"""
+    """`upsilon = mean / var` (binomial_evaluations.py:24 since fix D47) and the formula before the fix,
+    `1.0 - ((var - mean) / var)`: Soft64 `upsilonF` / `upsilonOldF` bit-for-bit against IEEE arithmetic over every dispersion;
+    theorems upsilon_float_range / _rel_err / _pos: the repaired value is in (0, 1] and within 2^-53 of the quotient"""
     todo = [(1.0, 1e17), (1.0, 1e10), (3.0, 3.0 * 2 ** 40), (1e-6, 23541.0), (1e5, 1e5 + 1e-6), (5.0, 5.000000000000005)]
     todo += [_gen_wide_pair(rng) for _ in range(count)]
-    worst = run.extra.get("nbd_upsilon_worst_rel_error_vs_mean_over_var", [0.0, None])
+    worst = run.extra.get("nbd_old_upsilon_worst_rel_error_vs_mean_over_var", [0.0, None])
     for mu, var in todo:
-        ups = 1.0 - ((var - mu) / var)
-        direct = mu / var
+        old = 1.0 - ((var - mu) / var)
+        ups = mu / var
         case = dict(kind="ups", mu=repr(mu), var=repr(var), tag="ups")
-        if not 0.0 <= ups <= 1.0:
-            run.oracle_failure(case, f"float64: 1.0 - ((var - mean) / var) = {ups!r} is outside [0, 1]")
-        if direct > 0:
-            rel = abs(ups - direct) / direct
-            if rel > worst[0]:
-                worst = [rel, [mu, var]]
+        exact = Fraction(mu) / Fraction(var)
+        if not (0.0 < ups <= 1.0 and abs(Fraction(ups) - exact) <= exact * Fraction(1, 2 ** 53)):
+            run.oracle_failure(case, f"float64: mean / var = {ups!r} is not in (0, 1] within 2^-53 of the quotient")
+        if not 0.0 <= old <= 1.0:
+            run.oracle_failure(case, f"float64: 1.0 - ((var - mean) / var) = {old!r} is outside [0, 1]")
+        rel = abs(old - ups) / ups
+        if rel > worst[0]:
+            worst = [rel, [mu, var]]
         run.case(case, ("ups", mu, var))
-        run.count("ups:" + ("p=0" if ups == 0.0 else ("p=1" if ups == 1.0 else "interior")))
+        run.count("ups:old-formula:" + ("p=0" if old == 0.0 else ("p=1" if old == 1.0 else "interior")))
         fm, fv = Fraction(mu), Fraction(var)
         pending.append(("ups", case, drv.ask(f"c07_ups {fm.numerator}/{fm.denominator} {fv.numerator}/{fv.denominator}"),
-                        None, ups, direct, 0))
-    run.extra["nbd_upsilon_worst_rel_error_vs_mean_over_var"] = worst
-
-
-def _upsilon_probe(run):
-    """is the cancellation finding (AWAITING_DECISION) present in the tree under test? recorded, never judged here"""
-    from csep.core import binomial_evaluations as be
-    try:
-        fn = getattr(be, "_nbd_number_test_ndarray", None) or (lambda m, n, v: _public_pair(run, {}, m, n, v))
-        with numpy.errstate(all="ignore"):
-            a = fn(1.0, 0, 1e17)
-            b = fn(78159.23998281111, 1, 2.4404283166859148e+16)
-        ref = 6.625190878055532e-06          # 80-digit arithmetic on the law with the exact rational parameters
-        state = {"nan_at_mean_1_var_1e17": not (float(a[0]) == 1.0 and 0.0 <= float(a[1]) <= 1.0),
-                 "delta1_rel_error_at_dispersion_3e11": abs(float(b[0]) - ref) / ref}
-    except Exception as e:
-        state = {"exception": f"{type(e).__name__}: {e}"}
-    run.extra["awaiting_decision_nbd_upsilon"] = state
+                        None, ups, old, 0))
+    run.extra["nbd_old_upsilon_worst_rel_error_vs_mean_over_var"] = worst
 
 
 def _mono_pair_nbd(run, drv, pending, rng):
@@ -1466,7 +1505,7 @@ def _mono_pair_nbd(run, drv, pending, rng):
     d1 = 1 + 10 ** rng.uniform(-2, 3)
     hi = 1 + (m2 / m1) * (d1 - 1)
     t = rng.choice([0.0, 1.0, rng.random()])
-    d2 = min(d1 + t * (hi - d1), NBD_DISPERSION_CAP)
+    d2 = min(d1 + t * (hi - d1), 1e12)
     if not (d2 >= d1 and m2 / (d2 - 1) >= m1 / (d1 - 1) * (1 - 1e-12)):
         d2 = d1
     a = _nbd_case(run, drv, pending, rng, m1, m1 * d1, n, "mono-pair")
@@ -1596,8 +1635,8 @@ def _flush(run, drv, pending):
                 p = float(Fraction(mu) / Fraction(var))
                 r = float(Fraction(mu) ** 2 / (Fraction(var) - Fraction(mu)))
                 cond = var / (var - mu)
-                # the code forms p = 1 - (var-mean)/var (cancellation: relative error ~ 1e-16/p) and r with mean**2
-                if not (_close(unbits(toks[2]), r, 4e-16 * cond + 1e-14) and _close(unbits(toks[3]), p, 4e-16 / p + 1e-14)):
+                # the code forms p = mean / var (one rounding) and r with mean**2 and var - mean (two roundings + cancellation)
+                if not (_close(unbits(toks[2]), r, 4e-16 * cond + 1e-14) and _close(unbits(toks[3]), p, 4e-16)):
                     run.mismatch(case, [r, p], [unbits(toks[2]), unbits(toks[3])])
     prev = run.extra.get("model_vs_impl_worst_rel_n_le_2000", {"pois": 0.0, "nbd": 0.0})
     run.extra["model_vs_impl_worst_rel_n_le_2000"] = {k: max(worst[k], prev[k]) for k in worst}
@@ -1606,6 +1645,10 @@ def _flush(run, drv, pending):
 
 
 def _corpus(run, drv, pending, rng):
+    # D47: the witnesses of the old probability formula run first (array-level helper and public function)
+    for mu, var, n in D47_WITNESSES:
+        _nbd_case(run, drv, pending, rng, mu, var, n, "corpus-D47")
+    _d47_public(run)
     # the suite's one numeric example and the conventions at small counts
     for mu, n in [(0.0015, 0), (0.0015, 1), (1.0, 1), (3.0, 3), (1e-6, 0), (1e-6, 1), (1e5, N_MAX), (1e5, 0),
                   (700.0, 700), (746.0, 746), (2.5, 2), (2.5, 3)]:
@@ -1649,11 +1692,14 @@ def run(run, rng, tier):
     _shift_cases(run, drv, pending, rng, 150 if quick else 5000)
     _shifte_cases(run, drv, pending, rng, 150 if quick else 5000)
     _ups_cases(run, drv, pending, rng, 300 if quick else 8000)
-    _upsilon_probe(run)
-    if NBD_WIDE_DISPERSION:
-        for _ in range(200 if quick else 4000):
-            mu, var = _gen_wide_pair(rng)
-            _nbd_case(run, drv, pending, rng, mu, var, _gen_n(rng, mu, min(math.sqrt(var), 1e6)), "wide")
+    # every admissible dispersion: var/mean in (1e4, 1e17] (D47), judged by the exact oracle like every other NBD case
+    for _ in range(250 if quick else 5000):
+        mu = _gen_mu(rng)
+        var = _gen_wide_var(rng, mu)
+        n = rng.choice([0, 1, 2, 3, rng.randint(0, 30), int(mu) + rng.randint(0, 3), _gen_n(rng, mu, min(math.sqrt(var), 1e6))])
+        _nbd_case(run, drv, pending, rng, mu, var, min(max(n, 0), N_MAX), "wide",
+                  vtype=rng.choice(["float", "float", "np", "0d"]))
+        run.count("nbd:wide-dispersion")
     for _ in range(40 if quick else 500):
         _mono_pair_nbd(run, drv, pending, rng)
     for _ in range(40 if quick else 600):
@@ -1684,6 +1730,8 @@ def replay(run, payload):
         _big_grid_case(run, drv, pending)
     elif k == "shift":
         _shift_cases(run, drv, pending, rng, 0)
+    elif k == "public-d47":
+        _d47_public(run)
     elif k == "shifte":
         _shifte_cases(run, drv, pending, rng, 0)
     elif k == "ups":
